@@ -143,6 +143,10 @@ impl<T: Write + Read + Seek> E57Writer<T> {
         };
         self.writer.physical_seek(0)?;
         header.write(&mut self.writer)?;
+
+        // Move back to the end of the file (this also writes the header page),
+        // otherwise any later call would overwrite the data behind the header
+        self.writer.physical_seek(phys_length)?;
         self.writer
             .flush()
             .write_err("Failed to flush writer at the end")
